@@ -15,14 +15,32 @@
 // ---------------------------------------------------------------------------------------------
 
 // ---- glob::Pattern ---------------------------------------------------------------------------
+// A compiled pattern is determined by the expression STRING it was compiled from (`source`); whether a
+// name matches is an UNINTERPRETED function of (source string, name) = file-name pattern semantics.
 #[verifier::external_body]
 pub struct Pattern { p: u8 }
-// file-name pattern semantics (fnmatch): UNINTERPRETED
-pub uninterp spec fn glob_match(p: Pattern, name: Seq<char>) -> bool;
+#[verifier::external_body]
+pub struct PatternError { p: u8 }
+pub uninterp spec fn glob_sem(expression: Seq<char>, name: Seq<char>) -> bool;
+// the expression strings glob::Pattern::new accepts: UNINTERPRETED
+pub uninterp spec fn glob_compilable(expression: Seq<char>) -> bool;
+// glob::Pattern::escape: SOME string function (the literal that matches the given text), UNINTERPRETED
+pub uninterp spec fn glob_escape(expression: Seq<char>) -> Seq<char>;
+pub open spec fn glob_match(p: Pattern, name: Seq<char>) -> bool { glob_sem(p.source(), name) }
 impl Pattern {
+    pub uninterp spec fn source(&self) -> Seq<char>;
     #[verifier::external_body]
     pub fn matches(&self, s: &str) -> (r: bool)
         ensures r == glob_match(*self, s@),
+    { unimplemented!() }
+    // glob::Pattern::new: compiles EXACTLY the given expression, or refuses it
+    #[verifier::external_body]
+    pub fn new(s: &str) -> (r: Result<Pattern, PatternError>)
+        ensures r is Ok <==> glob_compilable(s@), r matches Ok(p) ==> p.source() == s@,
+    { unimplemented!() }
+    #[verifier::external_body]
+    pub fn escape(s: &str) -> (r: String)
+        ensures r@ == glob_escape(s@),
     { unimplemented!() }
 }
 
@@ -66,7 +84,14 @@ pub uninterp spec fn clock_reading(d: DateTime<Utc>) -> bool;
 #[verifier::external_body]
 pub struct DistinguishedName { n: u8 }
 pub uninterp spec fn dn_value(d: DistinguishedName) -> int;
+// the name an RFC 4514 string denotes (x509_cert parser): UNINTERPRETED
+pub uninterp spec fn dn_of_string(s: Seq<char>) -> int;
 impl DistinguishedName {
+    // certificate.rs: x509_cert::name::DistinguishedName::from_str(s), error mapped to ConfigError
+    #[verifier::external_body]
+    pub fn parse(s: &str) -> (r: Result<DistinguishedName, ConfigError>)
+        ensures r matches Ok(d) ==> dn_value(d) == dn_of_string(s@),
+    { unimplemented!() }
     // certificate.rs: `pub fn matches(&self, other: &Self) -> bool { self.0 == other.0 }`
     #[verifier::external_body]
     pub fn matches(&self, other: &Self) -> (r: bool)
@@ -105,3 +130,99 @@ pub type PermissionsHandle = u32;
 pub type SecurityResult<T> = std::result::Result<T, SecurityError>;
 // what the macro create_security_error_and_log!(..) evaluates to: some SecurityError
 #[verifier::external_body] pub fn verif_security_error() -> SecurityError { unimplemented!() }
+
+// ---- std: iterator consumers / producers missing from vstd (assumed, modelled on vstd's own `collect`) ------
+// `impl FromIterator<Result<A, E>> for Result<Vec<A>, E>` (std: "Takes each element in the Iterator: if it is an Err,
+// no further elements are taken, and the Err is returned. Should no Err occur, a container with the values of each
+// Result is returned") and `String::to_string` (a copy)
+pub mod permissions_std_axioms {
+    use vstd::prelude::*;
+    use vstd::std_specs::iter::FromIteratorSpec;
+    #[verifier::external_body]
+    pub broadcast proof fn axiom_collect_result<A, E>(s: Seq<Result<A, E>>, r: Result<Vec<A>, E>)
+        ensures #[trigger] <Result<Vec<A>, E> as FromIteratorSpec<Result<A, E>>>::from_iter_ensures(s, r) ==>
+            (r matches Ok(v) ==> v@.len() == s.len() && forall|i: int| 0 <= i < s.len() ==> s[i] == Ok::<A, E>(#[trigger] v@[i]))
+            && (r is Err ==> exists|i: int| 0 <= i < s.len() && (#[trigger] s[i]) is Err)
+    {}
+    #[verifier::external_body]
+    pub broadcast proof fn axiom_string_to_string(s: &String, r: String)
+        ensures #[trigger] vstd::string::to_string_from_display_ensures::<String>(s, r) ==> r@ == s@
+    {}
+}
+broadcast use {permissions_std_axioms::axiom_collect_result, permissions_std_axioms::axiom_string_to_string};
+// `Vec::extend(iter)`: appends everything the iterator yields, in order
+pub assume_specification<T, A: core::alloc::Allocator, I: IntoIterator<Item = T>>[ <Vec<T, A> as Extend<T>>::extend ](v: &mut Vec<T, A>, iter: I)
+    ensures exists|it: I::IntoIter| call_ensures(<I as IntoIterator>::into_iter, (iter,), it)
+        && (vstd::std_specs::iter::IteratorSpec::obeys_prophetic_iter_laws(&it) ==>
+               vstd::std_specs::iter::IteratorSpec::will_return_none(&it)
+               && final(v)@ == old(v)@ + vstd::std_specs::iter::IteratorSpec::remaining(&it)),
+;
+// `Result::or_else` (the closure carries its own annotation, if any)
+#[verifier::allow(undeclared_external_trait)]
+pub assume_specification<T, E1, F1, O: FnOnce(E1) -> Result<T, F1> + core::marker::Destruct>[ Result::<T, E1>::or_else ](r: Result<T, E1>, op: O) -> (o: Result<T, F1>)
+    where E1: core::marker::Destruct
+    requires r matches Err(e) ==> op.requires((e,)),
+    ensures r matches Ok(t) ==> o == Ok::<T, F1>(t), r matches Err(e) ==> op.ensures((e,), o);
+
+// ---- security::config --------------------------------------------------------------------------------
+// R16: `format!(..)` -> opaque String placeholder (feeds error values only)
+#[verifier::external_body] pub fn verif_fmt() -> String { unimplemented!() }
+@@extract enum src/security/config.rs ConfigError
+impl From<PatternError> for ConfigError {
+    // config.rs: `ConfigError::Parse(format!("Bad glob pattern: {e:?}"))` — some ConfigError
+    #[verifier::external_body] fn from(e: PatternError) -> ConfigError { unimplemented!() }
+}
+@@extract fn src/security/config.rs parse_config_error
+@@end
+// R15: the trait function value `ConfigError::from` (here always From<glob::PatternError>) is named as a function
+#[verifier::external_body] pub fn config_error_from_glob(e: PatternError) -> ConfigError { ConfigError::from(e) }
+
+// std `Iterator::map_while(p)` (a provided trait method, like `peekable`: wrapper with an ASSUMED contract, substituted
+// by R8): "calls the closure on each element and yields elements while it returns Some(_)" - the results for a prefix of
+// n elements, where n is everything or the first element on which the closure returns None
+#[verifier::external_type_specification]
+#[verifier::external_body]
+#[verifier::reject_recursive_types(I)]
+#[verifier::reject_recursive_types(P)]
+pub struct ExMapWhile<I, P>(MapWhile<I, P>);
+#[verifier::external_body]
+pub fn vx_map_while<I: Iterator, B, P: FnMut(I::Item) -> Option<B>>(it: I, p: P) -> (r: MapWhile<I, P>)
+    requires
+        vstd::std_specs::iter::IteratorSpec::obeys_prophetic_iter_laws(&it),
+        forall|x: I::Item| p.requires((x,)),
+    ensures
+        vstd::std_specs::iter::IteratorSpec::obeys_prophetic_iter_laws(&r),
+        ({
+            let src = vstd::std_specs::iter::IteratorSpec::remaining(&it);
+            let out = vstd::std_specs::iter::IteratorSpec::remaining(&r);
+            &&& out.len() <= src.len()
+            &&& forall|i: int| 0 <= i < out.len() ==> p.ensures((src[i],), Some(#[trigger] out[i]))
+            &&& out.len() < src.len() ==> p.ensures((src[out.len() as int],), None::<B>)
+        }),
+{ it.map_while(p) }
+// config.rs: `to_config_error_parse(text)` = `move |e| ConfigError::Parse(format!("{}: {:?}", text, e))` — some ConfigError
+#[verifier::external_body]
+pub fn to_config_error_parse<E>(text: &str) -> (f: impl FnOnce(E) -> ConfigError)
+    ensures forall|e: E| f.requires((e,)),
+{ move |e: E| ConfigError::Parse(String::new()) }
+// the instant an xsd:dateTime string denotes (Grant::parse_time, chrono): UNINTERPRETED (seed C18c territory, not under contract)
+pub uninterp spec fn time_of_string(s: Seq<char>) -> int;
+// std `<[T]>::split_last`: "Returns the last and all the rest of the elements of the slice, or None if it is empty"
+pub assume_specification<T>[ <[T]>::split_last ](s: &[T]) -> (r: Option<(&T, &[T])>)
+    ensures
+        r is None <==> s@.len() == 0,
+        r matches Some(p) ==> *p.0 == s@[s@.len() - 1] && p.1@ == s@.subrange(0, s@.len() - 1),
+;
+// ---- serde_xml_rs (XML TEXT parsing: outside the unit) ------------------------------------------------------------
+// `serde_xml_rs::from_str::<T>(text)`: SOME value of the document type or an error — nothing is assumed about which
+pub mod serde_xml_rs {
+    use vstd::prelude::*;
+    #[verifier::external_body] pub struct Error { e: u8 }
+    #[verifier::external_body]
+    pub fn from_str<T>(s: &str) -> (r: Result<T, Error>) { unimplemented!() }
+}
+impl From<serde_xml_rs::Error> for ConfigError {
+    #[verifier::external_body] fn from(e: serde_xml_rs::Error) -> ConfigError { unimplemented!() }
+}
+// `text.trim_start_matches("Content-Type: text/plain").trim_start_matches(char::is_whitespace)` (S/MIME header): opaque
+#[verifier::external_body] pub fn vx_strip_mime_header(s: &str) -> (r: &str) { unimplemented!() }
